@@ -176,6 +176,32 @@ func runRewriteKind(c *core.Ctx) []core.Obligation {
 					default:
 						b.addP(props, core.Discharged, key, c.InstrPos(ci), fmt.Sprintf("%s writes %s, zig-zag=%v", f.Name(), wire, zz))
 					}
+					// the template value is parsed into a Go variable of the field's own type: a
+					// wider one accepts values the field cannot hold (a uint32 field given 2^32+5
+					// yields a message its codec rejects), a narrower one rounds them (a double
+					// parsed as float32: 0.1 becomes 0.10000000149011612)
+					tkey := "rewritekind:template-type:" + k
+					wantT := map[string]string{"Int32": "int32", "Int64": "int64", "Sint32": "int32", "Sint64": "int64", "Uint32": "uint32", "Uint64": "uint64", "Fix32": "uint32", "Fix64": "uint64", "Sfix32": "int32", "Sfix64": "int64", "Float": "float32", "Double": "float64"}[k]
+					gotT := ""
+					for _, ci2 := range callsIn(f) {
+						if calleeName(ci2.Common()) != "github.com/segmentio/encoding/json.Unmarshal" || len(ci2.Common().Args) != 2 {
+							continue
+						}
+						if mi, ok := ci2.Common().Args[1].(*ssa.MakeInterface); ok {
+							if pt, ok := mi.X.Type().Underlying().(*types.Pointer); ok {
+								gotT = pt.Elem().String()
+							}
+						}
+					}
+					switch {
+					case wantT == "":
+					case gotT == "":
+						b.addP(props, core.Undecided, tkey, c.FuncPos(f), f.Name()+" does not parse the template value with json.Unmarshal into a local variable")
+					case gotT != wantT:
+						b.addP(props, core.Violation, tkey, c.InstrPos(ci), fmt.Sprintf("the template value of a %s field is parsed by %s into a %s, the field holds a %s: values the field cannot represent are accepted and written (the rewritten message no longer decodes into the field), or representable values are rounded before being written", k, f.Name(), gotT, wantT))
+					default:
+						b.addP(props, core.Discharged, tkey, c.FuncPos(f), "parsed as "+gotT)
+					}
 				}
 			}
 		}
@@ -315,6 +341,37 @@ func runRewriteKind(c *core.Ctx) []core.Obligation {
 		}
 	} else {
 		b.addP(props, core.Undecided, "rewritekind:type", "-", "proto.structTypeOf not found")
+	}
+	// 4. the signed builders widen by sign extension: FieldNumber.Int32(-5) is the ten-byte varint
+	// of -5 as a 64-bit two's complement number (what every protobuf implementation writes for a
+	// negative int32), not the five bytes of its 32-bit pattern, which an int32 field rejects
+	for _, name := range []string{"Int32", "Int"} {
+		key := "rewritekind:builder-sign-extends:" + name
+		fn := c.Lookup("proto.(FieldNumber)." + name)
+		if fn == nil || len(fn.Params) < 2 {
+			b.addP(props, core.Undecided, key, "-", "proto.(FieldNumber)."+name+" not found")
+			continue
+		}
+		v := fn.Params[1]
+		bad, n := "", 0
+		for _, ref := range *v.Referrers() {
+			cv, ok := ref.(*ssa.Convert)
+			if !ok {
+				continue
+			}
+			n++
+			if bt, ok := cv.Type().Underlying().(*types.Basic); !ok || !(bt.Kind() == types.Int64 || bt.Kind() == types.Uint64) {
+				bad = c.InstrPos(cv)
+			}
+		}
+		switch {
+		case n == 0:
+			b.addP(props, core.Undecided, key, c.FuncPos(fn), "the value is not converted in "+name)
+		case bad != "":
+			b.addP(props, core.Violation, key, bad, fmt.Sprintf("FieldNumber.%s converts its signed argument to a narrower or same-width type before widening it to the 64 bits of a varint: a negative value is written as the varint of its 32-bit pattern (-5 as 4294967291) instead of being sign-extended; Unmarshal rejects it for an int32 field (integer overflow) — a template or BitOr rewriter that sets a negative int32 produces an undecodable message", name))
+		default:
+			b.addP(props, core.Discharged, key, c.FuncPos(fn), "the signed argument is widened to 64 bits directly")
+		}
 	}
 	return b.out
 }
